@@ -48,6 +48,17 @@ func VerifGCPass(s Store, cur, prev time.Time) error {
 	return fmt.Errorf("unknown store")
 }
 
+// VerifGCPassRaw is the ticker's pass as it is, including its test which repositories were modified recently enough to be visited.
+func VerifGCPassRaw(s Store, cur, prev time.Time) error {
+	switch x := s.(type) {
+	case *dir:
+		return x.gc(cur, prev)
+	case *mem:
+		return x.gc(cur, prev)
+	}
+	return fmt.Errorf("unknown store")
+}
+
 // VerifRepoNames lists the repositories the store currently tracks.
 func VerifRepoNames(s Store) []string {
 	switch x := s.(type) {
